@@ -772,10 +772,20 @@ pub fn program(rng: &mut Prng, id: &str) -> Case {
                 let stmts = g.rng.below(4);
                 let body = g.fn_body(&ret, stmts);
                 g.env.clear();
-                if ret == Ty::unit() && g.rng.coin() {
-                    items.push(format!("fn {name}({}) {body}", ps.join(", ")));
+                let header_rest = if ret == Ty::unit() && g.rng.coin() {
+                    format!("({}) {body}", ps.join(", "))
                 } else {
-                    items.push(format!("fn {name}({}) -> {rs} {body}", ps.join(", ")));
+                    format!("({}) -> {rs} {body}", ps.join(", "))
+                };
+                items.push(format!("fn {name}{header_rest}"));
+                // twins: the same function under one or two more names (identical parameters and
+                // body; only name and position differ), all callable from later code
+                if g.rng.below(4) == 0 {
+                    for k in 0..g.rng.range(1, 2) {
+                        let twin = format!("{name}_twin{k}");
+                        items.push(format!("fn {twin}{header_rest}"));
+                        g.funcs.push(Func { name: twin, params: params.clone(), ret: ret.clone() });
+                    }
                 }
                 g.funcs.push(Func { name, params, ret });
             }
